@@ -33,7 +33,7 @@ def plan(tier, seed):
 
 
 def floors(tier):
-    return {"evaluations": 5000, "strata": ["forward", "reversed-domain", "reversed-range"],
+    return {"evaluations": 5000, "strata": ["forward", "reversed-domain", "reversed-range", "history"],
             "events": {"TimeScale.eval.__call__": 50000, "TimeScale.eval.invert": 10000}, "distinct_nontrivial": 5000}
 
 
@@ -115,6 +115,65 @@ def run_case(ctx, S, a, b, r, fracs):
     return case, stratum, probs
 
 
+def history_case(ctx, tm, S, rng):
+    """Re-configuration histories on one TimeScale (and copies): the same instants are mapped again after every
+    domain / range / nice / copy operation; the online monitor judges every evaluation against the domain and
+    range the object reports at that moment."""
+    a, b, _m, tag = timedom.gen_time_domain(rng, min_span_ms=1000)
+    span_us = (b - a) // US
+    probes = [a, b] + [a + timedelta(microseconds=int(span_us * f) // 1000 * 1000) for f in (0.5, rng.random(), rng.random())]
+    ops = []
+    for _ in range(rng.randrange(2, 8)):
+        r = rng.random()
+        if r < 0.4:
+            ops.append(["range", rand_range(rng)])
+        elif r < 0.6:
+            a2, b2, _m2, _t2 = timedom.gen_time_domain(rng, min_span_ms=1000)
+            ops.append(["domain", [a2, b2]])
+        elif r < 0.75:
+            ops.append(["nice", rng.choice([None, 5, 20])])
+        elif r < 0.9:
+            ops.append(["copy"])
+        else:
+            ops.append(["invert-probe"])
+    case = {"type": "history", "domain": [a, b], "range": rand_range(rng), "ops": ops, "probes": probes}
+    run_history(ctx, tm, S, case)
+
+
+def run_history(ctx, tm, S, case):
+    v0 = tm.n_violations
+    probs = []
+    try:
+        objs = [S.TimeScale().domain(case["domain"]).range(list(case["range"]))]
+        for op in [["start"]] + case["ops"]:
+            o = objs[-1] if op[0] != "copy" else objs[0]
+            if op[0] == "range":
+                o.range(list(op[1]))
+            elif op[0] == "domain":
+                o.domain(op[1])
+            elif op[0] == "nice":
+                o.nice(op[1]) if op[1] is not None else o.nice()
+            elif op[0] == "copy":
+                objs.append(o.copy())
+            for x in objs:
+                d = x.domain()
+                if d[0] == d[1]:
+                    continue
+                for t in case["probes"]:
+                    x(t)
+                rr = x.range()
+                x.invert(rr[0] + 0.5 * (rr[1] - rr[0]))
+    except Exception as e:
+        probs.append("raised %s: %s" % (type(e).__name__, e))
+    if tm.n_violations > v0:
+        vs = tm.violations[-(tm.n_violations - v0):][:3]
+        ctx.judge("history", VIOLATED, case, finding=vs + probs, key="history:" + vs[0]["kind"] if vs else "history")
+    elif probs:
+        ctx.judge("history", VIOLATED, case, finding=probs, key="history:raised")
+    else:
+        ctx.judge("history", HELD, case if len(ctx.samples) < 1 else None, nontrivial=True, dig=repr(case)[:3000])
+
+
 def worker(ctx, shard):
     from vmon.mon_scale import LinearMonitor, TimeMonitor
 
@@ -150,6 +209,9 @@ def worker(ctx, shard):
             ctx.judge(stratum, VIOLATED, case, finding=probs[:4], key=probs[0].split(":")[0].split(" at ")[0][:40])
         else:
             ctx.judge(stratum, HELD, case, nontrivial=True, dig="%s|%s|%r" % (a, b, r))
+    for _ in range(max(1, shard["n"] // 3)):
+        lm.reset()
+        history_case(ctx, tm, S, rng)
     ctx.event("TimeScale.eval.__call__", tm.events["eval.__call__"])
     ctx.event("TimeScale.eval.invert", tm.events["eval.invert"])
     ctx.event("LinearScale.eval.insitu", lm.events["eval.__call__"])
@@ -164,6 +226,10 @@ def replay(ctx, witness):
     import labella.scale as S
 
     c = witness.get("case") or {}
+    if c.get("type") == "history":
+        run_history(ctx, tm, S, c)
+        tm.uninstall()
+        return
     case, stratum, probs = run_case(ctx, S, c["domain"][0], c["domain"][1], c["range"], c["fracs"])
     if tm.n_violations:
         probs.append("monitor: %r" % tm.violations[:2])
